@@ -17,16 +17,67 @@ fn decode(line: &str) -> Option<(Value, Value)> {
     .ok()
 }
 
+/// The entry points below `Value`: `Object::unordered_eq`, `Vec<Value>::unordered_eq`,
+/// `Vec<Object>`, `Meta<_, _>` and the `Unordered` wrappers of those answer what the `Value`
+/// entry point answers for the same two operands (both directions).
+fn lower_entry_points_agree(a: &Value, b: &Value, ab: bool, ba: bool) -> bool {
+    use locspan::Meta;
+    let mut ok = Meta(a.clone(), 7u8).unordered_eq(&Meta(b.clone(), 7u8)) == ab
+        && !Meta(a.clone(), 7u8).unordered_eq(&Meta(a.clone(), 8u8))
+        && vec![a.clone(), b.clone()].unordered_eq(&vec![b.clone(), a.clone()]) == (ab && ba);
+    match (a, b) {
+        (Value::Object(x), Value::Object(y)) => {
+            ok &= x.unordered_eq(y) == ab
+                && y.unordered_eq(x) == ba
+                && (x.as_unordered() == y.as_unordered()) == ab
+                && (Unordered(y.clone()) == Unordered(x.clone())) == ba
+                && vec![x.clone()].unordered_eq(&vec![y.clone()]) == ab
+                && x.unordered_eq(x);
+        }
+        (Value::Array(x), Value::Array(y)) => {
+            ok &= x.unordered_eq(y) == ab && y.unordered_eq(x) == ba && (x.as_unordered() == y.as_unordered()) == ab;
+        }
+        _ => (),
+    }
+    ok
+}
+
+/// `uh <nkeys> <ops> / <ops>`: two objects built by operation histories (the operation language
+/// of the object family), compared at the `Object` and at the `Value` level.
+fn eval_hist(line: &str) -> String {
+    let line = line.to_string();
+    guarded(move || {
+        let t = toks(&line);
+        let Some(slash) = t.iter().position(|x| *x == "/") else { return format!("BADCASE {line}") };
+        let mut o1 = json_syntax::Object::new();
+        for op in &t[2..slash] {
+            crate::object::apply(&mut o1, op);
+        }
+        let mut o2 = json_syntax::Object::new();
+        for op in &t[slash + 1..] {
+            crate::object::apply(&mut o2, op);
+        }
+        let (a, b) = (Value::Object(o1), Value::Object(o2));
+        let ab = a.unordered_eq(&b);
+        let ba = b.unordered_eq(&a);
+        let low = lower_entry_points_agree(&a, &b, ab, ba);
+        format!("ab={} ba={} low={} refl={} eq={}", ab as u8, ba as u8, low as u8, a.unordered_eq(&a) as u8, (a == b) as u8)
+    })
+}
+
 pub fn eval(line: &str) -> String {
+    if line.starts_with("uh ") {
+        return eval_hist(line);
+    }
     let Some((a, b)) = decode(line) else { return format!("BADCASE {line}") };
     guarded(move || {
         let ab = a.unordered_eq(&b);
         let ba = b.unordered_eq(&a);
-        let w1 = a.as_unordered() == b.as_unordered();
+        let w1 = if lower_entry_points_agree(&a, &b, ab, ba) { ((a.as_unordered() == b.as_unordered()) as u8).to_string() } else { "LOWER-ENTRY-POINTS-DISAGREE".to_string() };
         let w2 = Unordered(a.clone()) == Unordered(b.clone());
         let aa = a.unordered_eq(&a);
         let eq = a == b;
-        format!("ab={} ba={} asu={} wrap={} refl={} eq={}", ab as u8, ba as u8, w1 as u8, w2 as u8, aa as u8, eq as u8)
+        format!("ab={} ba={} asu={} wrap={} refl={} eq={}", ab as u8, ba as u8, w1, w2 as u8, aa as u8, eq as u8)
     })
 }
 
@@ -153,8 +204,10 @@ pub fn generate(args: &Args, out: &mut Out) {
     let full = args.thorough();
     let keys = ["$61", "$62"];
     let vals = leaves();
-    let nv = if full { vals.len() } else { 5 };
-    let maxlen = if full { 4 } else { 3 };
+    // (thorough: 7 values, length <= 3 -> 2,744 objects of length 3, 7.5 million ordered pairs;
+    // 9 values and length 4 would be 10^10 pairs)
+    let nv = if full { 7 } else { 5 };
+    let maxlen = 3;
     // all objects with <= maxlen entries over 2 keys x nv values
     let mut objs: Vec<Vec<(usize, usize)>> = vec![vec![]];
     let mut frontier: Vec<Vec<(usize, usize)>> = vec![vec![]];
@@ -240,6 +293,56 @@ pub fn generate(args: &Args, out: &mut Out) {
             m[w - 1] = m[0].clone();
             out.case_str(&format!("u | {a} | {}", show(&m)));
             out.case_str(&format!("u | {} | {a}", show(&m)));
+        }
+    }
+    // objects built by operation histories (push / push_front / insert / insert_front / remove /
+    // sort / clone ...): a history against itself, against a rotation of its pushes, against
+    // the same history with one more operation, against an unrelated one
+    for _ in 0..(if full { 40000 } else { 3000 }) {
+        let mut r = rng.fork();
+        let nk = 4;
+        let mk = |r: &mut Rng, n: usize| -> Vec<String> {
+            (0..n)
+                .map(|_| {
+                    let k = r.below(nk);
+                    let v = r.below(3);
+                    match r.below(12) {
+                        0..=3 => format!("push:{k}:{v}"),
+                        4 | 5 => format!("pushf:{k}:{v}"),
+                        6 => format!("pushef:{k}:{v}"),
+                        7 => format!("ins:{k}:{v}:*"),
+                        8 => format!("insf:{k}:{v}:0"),
+                        9 => format!("rm:{k}:1"),
+                        10 => format!("rmat:{}", r.below(5)),
+                        _ => (*r.pick(&["sort", "clone", "clonefrom", "take"])).to_string(),
+                    }
+                })
+                .collect()
+        };
+        let n1 = r.range(1, 8);
+        let h1 = mk(&mut r, n1);
+        let mut h2 = h1.clone();
+        match r.below(4) {
+            0 => h2.rotate_left(1),
+            1 => h2.reverse(),
+            2 => {
+                let extra = mk(&mut r, 1);
+                h2.extend(extra);
+            }
+            _ => {
+                let n2 = r.range(1, 8);
+                h2 = mk(&mut r, n2);
+            }
+        }
+        out.case_str(&format!("uh {nk} {} / {}", h1.join(" "), h2.join(" ")));
+        // front pushes only against back pushes of the same entries in reverse
+        if r.chance(1, 4) {
+            let es: Vec<(usize, usize)> = (0..r.range(1, 6)).map(|_| (r.below(2), r.below(2))).collect();
+            let f: Vec<String> = es.iter().map(|(k, v)| format!("pushf:{k}:{v}")).collect();
+            let b: Vec<String> = es.iter().rev().map(|(k, v)| format!("push:{k}:{v}")).collect();
+            out.case_str(&format!("uh {nk} {} / {}", f.join(" "), b.join(" ")));
+            let b2: Vec<String> = es.iter().map(|(k, v)| format!("push:{k}:{v}")).collect();
+            out.case_str(&format!("uh {nk} {} / {}", f.join(" "), b2.join(" ")));
         }
     }
     // random large values: shuffled copies (must be equal) and single mutations (usually differ)
